@@ -245,6 +245,9 @@ class SolverSparseLU(LinearSolver):
         """
         if trans not in ['N', 'T', 'H']:
             raise TypeError("Only N, T, or H transposition is possible")
+        if not self.iscomplex and np.iscomplexobj(rhs):
+            # SuperLU of a real matrix only takes a real rhs, so the real and imaginary parts are solved for separately
+            return self.inv.solve(rhs.real, trans=trans) + 1j * self.inv.solve(rhs.imag, trans=trans)
         return self.inv.solve(rhs, trans=trans)
 
 
